@@ -244,5 +244,107 @@ func init() {
 		for i := 0; i < n; i++ {
 			c14Case(o, rng.Fork())
 		}
+		c14API(o)
+	}
+}
+
+// ---- failing AddTypes calls (the other way types get into a root) ---------------------------------------
+//
+// Fixed table, every run: a root loaded from SDL (its schema implied by the Query type), then one AddTypes call
+// that must fail, observed like a failing load: printed schema, introspection (operation root types included),
+// a request, and a later valid load compared with a control root that never saw the failing call.
+
+func c14Ref(n string) ggql.Type { return &ggql.Ref{Base: ggql.Base{N: n}} }
+
+func c14Obj(name string, fields ...[2]string) *ggql.Object {
+	o := &ggql.Object{Base: ggql.Base{N: name}}
+	for _, f := range fields {
+		_ = o.AddField(&ggql.FieldDef{Base: ggql.Base{N: f[0]}, Type: c14Ref(f[1])})
+	}
+	return o
+}
+
+func c14SchemaType(roots ...[2]string) *ggql.Schema {
+	s := &ggql.Schema{}
+	for _, r := range roots {
+		_ = s.AddField(&ggql.FieldDef{Base: ggql.Base{N: r[0]}, Type: c14Ref(r[1])})
+	}
+	return s
+}
+
+var c14APITable = []struct {
+	name  string
+	types func() []ggql.Type
+}{
+	{"schema-naming-another-query-root+empty-object", func() []ggql.Type {
+		return []ggql.Type{c14SchemaType([2]string{"query", "Alt"}), c14Obj("Empty")}
+	}},
+	{"schema-naming-another-query-root+undefined-reference", func() []ggql.Type {
+		return []ggql.Type{c14SchemaType([2]string{"query", "Alt"}), c14Obj("Bad", [2]string{"x", "Zork"})}
+	}},
+	{"schema-with-mutation-root+duplicate-type", func() []ggql.Type {
+		return []ggql.Type{c14SchemaType([2]string{"query", "Query"}, [2]string{"mutation", "Alt"}), c14Obj("Alt", [2]string{"c", "Int"})}
+	}},
+	{"new-types+duplicate-of-an-existing-type", func() []ggql.Type {
+		return []ggql.Type{c14Obj("Fresh", [2]string{"f", "Int"}), c14Obj("Alt", [2]string{"c", "Int"})}
+	}},
+	{"default-mutation-root+empty-object", func() []ggql.Type {
+		return []ggql.Type{c14Obj("Mutation", [2]string{"set", "Int"}), c14Obj("Empty")}
+	}},
+	{"default-subscription-root+undefined-reference", func() []ggql.Type {
+		return []ggql.Type{c14Obj("Subscription", [2]string{"on", "Int"}), c14Obj("Bad", [2]string{"x", "Zork"})}
+	}},
+	{"enum-without-values", func() []ggql.Type {
+		return []ggql.Type{c14Obj("Fresh", [2]string{"f", "Int"}), &ggql.Enum{Base: ggql.Base{N: "E"}}}
+	}},
+	{"union-without-members", func() []ggql.Type {
+		return []ggql.Type{c14Obj("Fresh", [2]string{"f", "Alt"}), &ggql.Union{Base: ggql.Base{N: "U"}}}
+	}},
+}
+
+func c14API(o *Out) {
+	const first = "type Query { a: Int alt: Alt }\ntype Alt { b: Int }\n"
+	const follow = "type Mutation { set: Int }\ntype Later { z: Alt }\n"
+	for _, e := range c14APITable {
+		root, control := newLoadRoot(), newLoadRoot()
+		if safeParse(root, first) != nil || safeParse(control, first) != nil {
+			panic("c14 api base")
+		}
+		before := c14Snap(root)
+		var ferr error
+		func() {
+			defer func() {
+				if rc := recover(); rc != nil {
+					ferr = fmt.Errorf("panic: %v", rc)
+				}
+			}()
+			ferr = root.AddTypes(e.types()...)
+		}()
+		if ferr == nil {
+			o.Count("failing-AddTypes-accepted")
+			continue
+		}
+		after := c14Snap(root)
+		same := before == after
+		e1, e2 := safeParse(root, follow), safeParse(control, follow)
+		laterSame := (e1 == nil) == (e2 == nil) && c14Snap(root) == c14Snap(control)
+		diff := ""
+		if !same {
+			switch {
+			case before.sdl != after.sdl:
+				diff = "printed schema"
+			case before.intro != after.intro:
+				diff = "introspection"
+			default:
+				diff = "request"
+			}
+		}
+		o.Count("failure=AddTypes")
+		o.Emit(Case{
+			Term: N("c14api", A(e.name)),
+			Obs:  N("obs", B(same && laterSame)),
+			Meta: map[string]interface{}{"call": "AddTypes: " + e.name, "error": ferr.Error(), "differs_in": diff, "later_same": laterSame},
+			Nontrivial: true,
+		})
 	}
 }
